@@ -10,39 +10,44 @@ CLAIMED = {
     "C01": (
         "Generated-input search: exhaustive over all small files (1..3 or 1..4 records, field widths from a small set) x every chunk size "
         "x plain/gzip x final newline x LF/CRLF x lazy/eager for ten formats, plus Hypothesis-sampled larger files with chunk sizes aimed at "
-        "divisors and record boundaries; oracle is equality of concatenated chunk rows with read() rows.",
+        "divisors and record boundaries; oracle is equality of concatenated chunk rows with read() rows and with the generated records.",
         "Holds on the explored region only. Trusts Python's gzip module and the per-format serializers in pbt/formats.py.",
         "exhaustive small-domain enumeration + Hypothesis sampling, differential oracle (chunked vs whole read)"),
     "C02": (
         "Generated-input search over 21 format variants: Hypothesis builds files from independent grammars (non-canonical but valid spellings, "
         "unequal widths, CRLF, comments, typed INFO declarations, genotype columns) and every parsed column is compared with a plain-Python "
-        "parse of the same text, for eager and lazy reading and through bnp.open on real files.",
+        "parse of the same text, for eager and lazy reading and through bnp.open on real files; in a share of the cases another file (the same "
+        "bytes through another VCF buffer type, another file of the format, a VCF declaring the same INFO keys with another Number) is read first in the same process.",
         "Holds on the explored region only. The reference parse (int(), float(), str.split) and the grammars in pbt/formats.py and pbt/strategies.py are trusted; floats are compared within 8 ulp.",
         "Hypothesis grammar-based generation, reference-model oracle (independent Python parse)"),
     "C03": (
         "Generated tables and writing plans: Hypothesis builds tables of 13 entry types from Python values (int64 extremes and powers of ten, "
         "finite floats, FASTA lengths around multiples of 80) and a plan that splits the rows into successive writes, a stream, or append "
         "sessions on a plain or gzip file. The written body is compared with an independent canonical serializer, the file is read back "
-        "eagerly and lazily and compared with the input rows, and the plan's content must equal the single write byte for byte.",
-        "Holds on the explored region only. Trusts the canonical serializer in pbt/props/c03.py and Python's gzip. Tables are constructed from values; tables read from files with header context are exercised by C04/C05.",
+        "eagerly and lazily and compared with the input rows, and the plan's content must equal the single write byte for byte. In a third of the "
+        "cases the pieces are slices (optionally thinned by a mask) of the lazily re-read file, written piecewise or as one np.concatenate.",
+        "Holds on the explored region only. Trusts the canonical serializer in pbt/props/c03.py and Python's gzip.",
         "Hypothesis generation, round-trip + reference serializer + metamorphic (split writes == single write)"),
     "C04": (
         "Model-based generated histories: Hypothesis draws a source file with non-canonical spellings and a program of selections, "
         "concatenations, field replacements and interleaved write / to-rows observations over a pool of lazily read tables; a byte-level model "
         "(source record byte strings plus per-row replaced fields) predicts the written bytes exactly for unmodified selections and field by "
-        "field for concatenated or modified tables.",
-        "Holds on the explored region only; eight text formats (BAM pass-through is exercised by the C16 check). Trusts pbt/formats.py record serializers. Tolerances: float re-formatting within 8 ulp, '.' placeholder may become 0 in a replaced column, an empty SAM tags field may be written as a trailing tab.",
+        "field for concatenated or modified tables. BAM: files from the independent encoder with programs of selections, field reads, writes and "
+        "concatenations (random steps plus select - read - write - read chains); written selections must be the original record bytes and every field read at any point must be the generated value.",
+        "Holds on the explored region only; nine text format variants and BAM. Trusts pbt/formats.py record serializers and pbt/bamenc.py. BamBuffer does not support writing parsed tables (supports_modified_write = False): such a write must raise. Tolerances: float re-formatting within 8 ulp, '.' placeholder may become 0 in a replaced column, an empty SAM tags field may be written as a trailing tab.",
         "Hypothesis-generated operation programs interpreted against a byte-level reference model"),
     "C05": (
         "Differential model-based histories: the same generated file is read lazily and eagerly (whole or chunked) and a Hypothesis-drawn "
         "program of public operations (len, field access in any order, indexing, concatenation, bnp.replace, attribute assignment, tolist, "
-        "write) runs on both; after every step values and written bytes must be equal, or both sides must raise.",
+        "write) runs on both; after every step values and written bytes must be equal, or both sides must raise. BAM files from the independent "
+        "encoder run the same selection / read / write programs in both modes.",
         "Holds on the explored region only; the eager table is the reference, so a defect common to both modes is invisible here (C02/C03 cover those). One open finding ('.' score placeholder) is excluded by a narrow bucket. Integer row access that fails inside npstructures under NumPy 2 is counted as a tolerant class.",
         "Hypothesis-generated operation programs, differential oracle (lazy vs eager)"),
     "C06": (
         "Exhaustive over all 256 byte values x 10 predefined alphabets x 2 input routes, plus Hypothesis strings / lists / base-encoded arrays "
         "with one foreign character inserted anywhere, StringEncoding label lists, and all 90 ordered alphabet pairs for re-targeting and "
-        "change_encoding (contiguous arrays and row-reordered views); oracle is a Python model of each alphabet and text equality.",
+        "change_encoding (contiguous arrays and row-reordered views), and histories of 2..6 calls in one process (re-targetings between alphabets "
+        "that share a prefix; encode, edit the returned array, encode again); oracle is a Python model of each alphabet and text equality.",
         "Holds on the explored region; the byte-level part is complete. Hash collisions of StringEncoding are out of reach of random search.",
         "exhaustive byte enumeration + Hypothesis generation, reference-model oracle and text-preservation (metamorphic) oracle"),
     "C07": (
@@ -55,7 +60,7 @@ CLAIMED = {
     "C08": (
         "Exhaustive enumeration of every interval multiset (up to 3 intervals) on contigs of size 1..6 (1..8 thorough) with every merge distance, "
         "and every pair of multisets (2+2) on sizes up to 5 (6 thorough), plus Hypothesis sets on contigs up to 300; every function's result is "
-        "compared with a dense per-base Python model and every input is compared with its snapshot after each call.",
+        "compared with a dense per-base Python model (jaccard / forbes also on a two-contig genome where a set may be absent from a contig) and every input is compared with its snapshot after each call.",
         "Holds on the explored region; the small-contig cores are complete. count_overlap / intersect are only checked for values on internally non-overlapping sets (their sweep has no meaning otherwise).",
         "exhaustive small-domain enumeration + Hypothesis sampling, reference-model oracle (dense per-base arrays)"),
     "C09": (
@@ -71,12 +76,12 @@ CLAIMED = {
         "extended_to_size, get_location, get_windows, array and sequence values under stranded intervals through the dict and the indexed-FASTA "
         "back ends, Geometry helpers) is compared per chromosome with the single-contig model applied to that chromosome's entries alone, and "
         "the GlobalOffset conversions are checked exhaustively for every generated genome.",
-        "Holds on the explored region only. In-memory (Full) variants; streamed variants are C11/C12. The per-chromosome model is the one validated in C08.",
+        "Holds on the explored region only. In-memory (Full) variants plus the pileup through the streamed per-chromosome path; streaming itself is C11/C12. The per-chromosome model is the one validated in C08.",
         "Hypothesis generation, reference-model oracle (per-chromosome restriction) + exhaustive bijection check per genome"),
     "C11": (
-        "Exhaustive over all 2^(n-1) chunkings of n sorted entries (n = 8 quick, 10 thorough) for twelve computations on ten deterministic "
-        "datasets (mean, bincount, histogram with edges / with range, count_kmers, groupby, chunk_entries, and per-chromosome pipelines evaluated "
-        "with bnp.compute: pileup records, mask sum, pileup sum, pileup histogram, window column mean), plus Hypothesis datasets of up to 200 "
+        "Exhaustive over all 2^(n-1) chunkings of n sorted entries (n = 8 quick, 10 thorough) for fourteen computations on ten deterministic "
+        "datasets (mean, bincount, histogram with edges / with range, count_kmers, groupby on an identifier and on a text-typed key, chunk_entries, and per-chromosome pipelines evaluated "
+        "with bnp.compute: pileup records, mask sum, pileup sum, pileup histogram, window column mean, and joint computes of several reductions), plus Hypothesis datasets of up to 200 "
         "entries with sampled cut sets; each streamed value is compared with an independent Python computation and the in-memory path.",
         "Holds on the explored region; for the listed n every chunking is covered. Streams are built from in-memory tables split at the cut positions (file-level chunking is C01).",
         "exhaustive enumeration of chunkings + Hypothesis sampling, differential/metamorphic oracle (streamed == in-memory == Python model)"),
@@ -84,24 +89,27 @@ CLAIMED = {
         "Exhaustive over every sequence of distinct contig groups drawn from the genome's names, one unknown and one ignored name (326 "
         "sequences for 3 contigs, 1957 for 4) x four chunkings (none, between groups, inside groups, every entry) x seven consumers "
         "(iter_chromosomes, pileup, mask sum, compute, get_track, MultiStream, forbes/jaccard), plus Hypothesis genomes where the ignored "
-        "contig sits anywhere in the listing. A decision-table oracle says for each sequence whether evaluation must complete (with each "
+        "contig sits anywhere in the listing, a name with an underscore may be kept, and the contig column may be text-typed. A decision-table oracle says for each sequence whether evaluation must complete (with each "
         "contig receiving exactly its entries) or must raise; the entries seen after a completed evaluation must equal the non-ignored input.",
         "Holds on the explored region; the group-sequence core is complete for the stated genome sizes. Entries of one contig are contiguous (the property's precondition).",
         "exhaustive enumeration of group orders + Hypothesis sampling, decision-table oracle with conservation invariant"),
     "C13": (
         "Exhaustive over every list of up to 2 rows of length 0..4 (3 rows of length 0..3) on a two-letter sub-alphabet with every window 1..5 "
         "for k-mers (bit-packed and generic paths), minimizers (every k <= w), match_string, motif scores and k-mer counts; Hypothesis for five "
-        "alphabets, k up to the largest representable, rows of length w-1, w, w+1 and empty rows. Oracle: per-row plain-Python definitions.",
+        "alphabets, k up to the largest representable, rows of length w-1, w, w+1 and empty rows, inputs given as non-contiguous row selections, "
+        "and histories of 2..4 calls over same-size alphabets. Oracle: per-row plain-Python definitions.",
         "Holds on the explored region only; the small core is complete.",
         "exhaustive small-domain enumeration + Hypothesis sampling, reference-model oracle (per-row Python definitions)"),
     "C14": (
         "Exhaustive over every DNA string of length <= 4 on {A,C,G,T,N,a,c,g,t,n} in ASCII and ACGTn (and ACGT thorough), all 64 codons, all "
         "codon pairs and a stride (all, thorough) of codon triples; Hypothesis for longer strings, stranded interval sets of 1..8 and 17..40 "
-        "intervals on a flat sequence and on a multi-chromosome GenomicSequence. Two independent oracles: a table-driven model and Biopython.",
+        "intervals on a flat sequence and on a multi-chromosome GenomicSequence; translation of text, of SequenceEntry tables and of already "
+        "encoded input (same protein or an exception). Two independent oracles: a table-driven model and Biopython.",
         "Holds on the explored region; the small cores are complete. Output case is compared case-insensitively.",
         "exhaustive small-domain enumeration + Hypothesis sampling, two reference oracles (table model, Biopython), involution law"),
     "C15": (
-        "Fault injection over generated inputs: one format violation of each class is injected at every record position of a well-formed file; "
+        "Fault injection over generated inputs: one format violation of each class (bad marker, bad '+' line, non-numeric text incl. lone signs, "
+        "malformed floats (two points, exponent without digits), a non-number in an all-'.' column, bad strand, fewer / more / double columns) is injected at every record position of a well-formed file; "
         "exhaustive over small files x every chunk size x lazy/eager x plain/gzip, sampled for larger files of nine formats. Oracle: an exception "
         "is raised by the time all rows are read, a FormatException names the offending line, and that line number equals the one from a whole-file read.",
         "Holds on the explored region only. For column-count violations the admissible line numbers are p and p+1 (which of two disagreeing lines offends is not determined by the file) and the cross-configuration comparison is not applied to them.",
@@ -116,7 +124,7 @@ CLAIMED = {
     "C17": (
         "Exhaustive over every FASTA of 1 record (2 or 3 thorough) with lengths up to 7 and per-record wrap widths up to 8, crossed with every "
         "interval [a, b) of every record, for library-built and model-supplied indexes and files with and without a final newline; Hypothesis "
-        "for lengths up to 400, widths up to 130; one 5.6 MB file reaches the cross-chunk offsets of create_index. Oracle: the model records "
+        "for lengths up to 400, widths up to 130; a 5.6 MB and a 16 MB file reach the cross-chunk offsets of create_index (2 and 4 read chunks). Oracle: the model records "
         "(index fields, contig lengths, whole contigs, substrings through both lookup paths with a label order different from the file order).",
         "Holds on the explored region; the small cores are complete. Files are really written to a temporary directory.",
         "exhaustive small-domain enumeration + Hypothesis sampling, reference-model oracle (records and faidx layout computed by the generator)"),
@@ -127,16 +135,16 @@ CLAIMED = {
         "Holds on the explored region only. Python's int(), float() and repr() are the reference. One open finding (format-then-parse off by <= 8 ulp) is excluded by a narrow bucket; a larger error is still a violation.",
         "boundary enumeration + Hypothesis batches, reference oracle (Python int/float/repr) and metamorphic batch-independence oracle"),
     "C19": (
-        "Model-based generated histories: Hypothesis builds tables of 12 entry types from bionumpy.datatypes and 3 dynamically made classes "
+        "Model-based generated histories: Hypothesis builds tables of 13 entry types from bionumpy.datatypes (BamEntry with a numerically encoded ragged column included) and 3 dynamically made classes "
         "(all column kinds, nested table, numeric columns in varying valid dtypes) and a program of indexing, concatenation (including operands "
-        "whose numbers need a wider dtype), sort_by, iteration, replace, add_fields, tolist, todict, pandas and entry-tuple round trips and "
+        "whose numbers need a wider dtype), sort_by, iteration, replace, add_fields, tolist, todict, dict, pandas and entry-tuple round trips and "
         "invalid constructions; after every step the table's rows must equal a list-of-tuples model, all columns must have equal length, and "
         "every operand must still equal its snapshot.",
         "Holds on the explored region only. sort_by is checked as an ordered permutation; pandas round trips only for column types pandas can carry.",
         "Hypothesis-generated operation programs interpreted against a list-of-tuples reference model"),
     "C20": (
-        "A registry of 62 public calls (text/number conversion, interval arithmetic, sequence functions, encoding changes, genomic-data "
-        "methods, table methods) each run on Hypothesis-generated arguments passed both as fresh arrays and as views into a larger buffer, "
+        "A registry of 55 public calls (text/number conversion, interval arithmetic, sequence functions, encoding changes, genomic-data "
+        "methods, table methods) each run on Hypothesis-generated arguments passed both as fresh arrays and as views into a larger buffer (in half of the cases never read before the call: the reference snapshot comes from a twin construction), "
         "plus field access in a generated order on lazily read chunks of 12 text-format variants (and on slices of them, with a write of the "
         "slice in the middle). Oracle: a deep snapshot of every argument and of the buffer behind a view is unchanged by the call, a second "
         "call gives an equal result, every field of a chunk equals the value a fresh parse gives regardless of earlier accesses, and the "
